@@ -367,6 +367,11 @@ def resolve_same_automaton(kind, seed, n_pairs, backend='cudd'):
                 fresh = make_game(rnd, de, ds, moore, plus_one, qinit, nh, ng, backend)
                 if aut is None:
                     aut = fresh
+                elif round_ == 1:
+                    # same predicates, only the mode attributes change
+                    old_mode = (aut.moore, aut.plus_one)
+                    moore, plus_one = rnd.choice([m for m in [(True, True), (True, False), (False, True), (False, False)] if m != old_mode])
+                    aut.moore, aut.plus_one = moore, plus_one
                 else:
                     # same object, new game: copy the predicates into the old manager
                     cp = lambda u: fresh.bdd.copy(u, aut.bdd)
